@@ -40,7 +40,7 @@ EXPECTED_PROBES = ["probe_eviction", "probe_reopen", "probe_get_after_evict", "p
                    "probe_overwrite", "probe_unload", "probe_table_merge_conflict", "probe_table_with_holes_read",
                    "probe_table_stored_with_pending_insert", "probe_table_batch_unordered_or_repeating", "probe_get_raised_after_read_error",
                    "probe_missing_get_on_the_path_of_a_set_key", "probe_returned_table_mutated", "probe_epilogue_pressure_set",
-                   "probe_store_opened_again_with_another_limit"]
+                   "probe_store_opened_again_with_another_limit", "probe_table_without_rows_stored"]
 WALL_CAP = {"quick": 300, "thorough": 3600}
 
 _fc = _kvs = _dfc = None
@@ -212,7 +212,7 @@ def scenario(ch, cfg):
             st = kvs.KeyValueStorage(ROOT, max_memory=lim)
             klong._context[KGSym("kvs")] = st
             if state["limit"] is not None and lim != state["limit"]:
-                stats["probe_store_opened_again_with_another_limit"] += 1
+                stats["probe_store_opened_again_with_another_limit", "probe_table_without_rows_stored"] += 1
         else:
             lim = limit
             klong(f'kvs::.kvs("{ROOT}")')
@@ -462,6 +462,10 @@ def scenario_tables(ch, cfg):
                 stats["probe_table_batch_unordered_or_repeating"] += 1
         else:
             idx = list(range(n))
+        if not batch and ch.draw(8, "norows") == 0:
+            # a table that has its columns but no rows yet: a value like any other (the key HAS been set afterwards)
+            idx = []
+            stats["probe_table_without_rows_stored"] += 1
         vals = [100 * (len(log) + 1) + j for j in range(len(idx))]
         # a wide string column makes the in-memory size (what the cache accounts) comparable to
         # the limit, so that small limits really evict
@@ -475,6 +479,7 @@ def scenario_tables(ch, cfg):
         if ch.draw(5, "nob") == 0:
             del cols["b"]
             stats["probe_table_missing_column"] += 1
+        state["last_cols"] = list(cols)
         klongtable = bool(indexed and not batch and ch.draw(2, "klongtable"))
 
         def make():
@@ -489,7 +494,7 @@ def scenario_tables(ch, cfg):
             # a row added with .insert that is still pending in the table's buffer when the table is stored (the flow of
             # the .tables() documentation: .insert(prices;d) then ts,"tables/prices",prices)
             import numpy as np
-            new_a = (max(idx) + 1) if indexed else len(idx)
+            new_a = ((max(idx) + 1) if idx else 0) if indexed else len(idx)
             v = 100 * (len(log) + 1) + 50
             row = {"a": new_a, "b": v, "s": f"{v}".ljust(150, "_"), "c": v + 1}
             arr = np.array([row[c] for c in cols], dtype=object)
@@ -561,6 +566,10 @@ def scenario_tables(ch, cfg):
                         stats["probe_stored_table_mutated_afterwards"] += 1
                     cur = model.setdefault(key, {})
                     seen = state["columns"].setdefault(key, [])
+                    for c in state["last_cols"]:
+                        # (a table without rows still brings its columns)
+                        if c not in seen:
+                            seen.append(c)
                     for _ix, row in rows:
                         for c in row:
                             if c not in seen:
@@ -653,6 +662,9 @@ def scenario_tables(ch, cfg):
                 break
             cur = model.setdefault(pk, {})
             seen = state["columns"].setdefault(pk, [])
+            for c in state["last_cols"]:
+                if c not in seen:
+                    seen.append(c)
             for ix, row in rows:
                 for c in row:
                     if c not in seen:
